@@ -250,6 +250,7 @@ KEYSTR = ["a", "b", "A", "B", "ab", "Ab", "k1", "K1", "x y", "", "1", "none"]
 PRIV = ["__a", "__A", "__p", "__"]
 
 
+_XU = False        # set by run(): generate inside the extended model universe (no enum members / Decimal / numpy)
 _NUMX = False      # set by gen_pairs: the numeric options get Decimal / numpy scalars / extreme magnitudes as leaves
 
 
@@ -264,7 +265,7 @@ def numx_atom(rng):
 
 def gen_atom(rng, rich=False, nan_ok=False):
     r = rng.random()
-    if rich and _NUMX and r < 0.45:
+    if rich and _NUMX and not _XU and r < 0.45:
         return numx_atom(rng)
     if r < 0.08:
         return None
@@ -282,6 +283,8 @@ def gen_atom(rng, rich=False, nan_ok=False):
     if r < 0.92 or not rich:
         return rng.choice(BYTS)
     k = rng.random()
+    if _XU:
+        return gen_dt(rng)
     if k < 0.3:
         return float("nan") if nan_ok else rng.choice(list(E))
     if k < 0.6:
@@ -317,7 +320,7 @@ def gen_key(rng, bytes_ok, numeric_ok, rich=False, nan_ok=False):
     if bytes_ok:
         return rng.choice(BYTS[:6])
     if rich and rng.random() < 0.5:
-        return rng.choice([E.A, E.B, gen_dt(rng), float("nan") if nan_ok else E.C])
+        return gen_dt(rng) if _XU else rng.choice([E.A, E.B, gen_dt(rng), float("nan") if nan_ok else E.C])
     return rng.choice(KEYSTR)
 
 
@@ -890,6 +893,203 @@ def model_case(args):
 
 
 # --------------------------------------------------------------------------
+# the EXTENDED model universe (Options/XValue.v): arbitrary finite floats, datetimes with fixed offsets
+# --------------------------------------------------------------------------
+EPOCH = datetime.datetime(1970, 1, 1)
+USEC = datetime.timedelta(microseconds=1)
+XHDR = ("From DD Require Import Base.PyStr Options.OptModel Options.OptDtModel Options.XValue Options.XModel Options.XShow.\n"
+        "Local Open Scope Z_scope.")
+COQ_XTY = dict(COQ_TY, datetime="TDatetime")
+TUNITS = {None: "None", "second": "(Some USecond)", "minute": "(Some UMinute)", "hour": "(Some UHour)", "day": "(Some UDay)"}
+
+
+def dt_parts(d):
+    us = (d.replace(tzinfo=None) - EPOCH) // USEC
+    off = None if d.tzinfo is None else int(d.utcoffset().total_seconds() // 60)
+    return us, off
+
+
+def x_ok_atom(a):
+    if a is None or isinstance(a, (bool, str, bytes)):
+        return not isinstance(a, str) or a.isascii()
+    if type(a) is int:
+        return abs(a) < 2 ** 53
+    if type(a) is float:
+        return math.isfinite(a) and abs(a) < 1e15 and not (a == 0 and math.copysign(1, a) < 0)
+    if type(a) is datetime.datetime:
+        return a.tzinfo is None or (a.utcoffset().total_seconds() % 60 == 0 and a.utcoffset().microseconds == 0)
+    return False
+
+
+def in_xuniverse(v):
+    if isinstance(v, (list, tuple)):
+        return type(v) in (list, tuple) and all(in_xuniverse(x) for x in v)
+    if isinstance(v, dict):
+        return type(v) is dict and all(x_ok_atom(k) and in_xuniverse(x) for k, x in v.items())
+    if isinstance(v, (set, frozenset)):
+        return all(x_ok_atom(x) for x in v)
+    return x_ok_atom(v)
+
+
+def x_atom_to_coq(a):
+    if a is None:
+        return "ANone"
+    if a is True:
+        return "(ABool true)"
+    if a is False:
+        return "(ABool false)"
+    if isinstance(a, int):
+        return "(AInt %s)" % coq_Z(a)
+    if isinstance(a, float):
+        m, den = a.as_integer_ratio()
+        return "(AFloat %s %d%%N)" % (coq_Z(m), den.bit_length() - 1)
+    if isinstance(a, str):
+        return "(AStr %s)" % coq_pystr(a)
+    if isinstance(a, bytes):
+        return "(ABytes %s)" % coq_pystr(a)
+    if isinstance(a, datetime.datetime):
+        us, off = dt_parts(a)
+        return "(ADt %s %s)" % (coq_Z(us), "None" if off is None else "(Some %s)" % coq_Z(off))
+    raise TypeError(a)
+
+
+def x_to_coq(v):
+    if isinstance(v, list):
+        return "(VList [%s])" % "; ".join(x_to_coq(x) for x in v)
+    if isinstance(v, tuple):
+        return "(VTuple [%s])" % "; ".join(x_to_coq(x) for x in v)
+    if isinstance(v, dict):
+        return "(VDict [%s])" % "; ".join("(%s, %s)" % (x_atom_to_coq(k), x_to_coq(x)) for k, x in v.items())
+    if isinstance(v, frozenset):
+        return "(VFrozen [%s])" % "; ".join(x_atom_to_coq(x) for x in v)
+    if isinstance(v, set):
+        return "(VSet [%s])" % "; ".join(x_atom_to_coq(x) for x in v)
+    return "(VAtom %s)" % x_atom_to_coq(v)
+
+
+def xcanon_atom(a):
+    if a is None:
+        return None
+    if a is True or a is False:
+        return ["b", a]
+    if isinstance(a, int):
+        return ["i", a]
+    if isinstance(a, float):
+        m, den = a.as_integer_ratio()
+        return ["f", m, den.bit_length() - 1]
+    if isinstance(a, str):
+        return ["s", a]
+    if isinstance(a, bytes):
+        return ["y", a.decode("latin-1")]
+    if isinstance(a, datetime.datetime):
+        us, off = dt_parts(a)
+        return ["d", us, None if off is None else ["Some", off]]
+    raise TypeError(a)
+
+
+def xcanon(v):
+    if isinstance(v, list):
+        return ["L", [xcanon(x) for x in v]]
+    if isinstance(v, tuple):
+        return ["T", [xcanon(x) for x in v]]
+    if isinstance(v, dict):
+        return ["D", [[xcanon_atom(k), xcanon(x)] for k, x in v.items()]]
+    if isinstance(v, frozenset):
+        return ["F", core.sx_sorted([xcanon_atom(x) for x in v])]
+    if isinstance(v, set):
+        return ["S", core.sx_sorted([xcanon_atom(x) for x in v])]
+    return xcanon_atom(v)
+
+
+def xpath(level, use_t2=False):
+    out = []
+    lv = level.all_up
+    while lv is not None and lv is not level:
+        rel = (lv.t2_child_rel or lv.t1_child_rel) if use_t2 else (lv.t1_child_rel or lv.t2_child_rel)
+        if rel is None:
+            break
+        parent = rel.parent
+        if isinstance(parent, (list, tuple)):
+            out.append(["x", rel.param])
+        elif isinstance(parent, dict):
+            out.append(["k", xcanon_atom(rel.param)])
+        else:
+            break
+        lv = lv.down
+    return out
+
+
+def xtree_obs(tree):
+    np_ = D.notpresent()
+    out = []
+    for kind in D.KINDS:
+        for lv in tree.get(kind, []) or []:
+            d = lv.additional.get("diff") if isinstance(lv.additional, dict) else None
+            out.append([kind, xpath(lv), xpath(lv, True),
+                        None if lv.t1 is np_ else ["Some", xcanon(lv.t1)], None if lv.t2 is np_ else ["Some", xcanon(lv.t2)],
+                        None if d is None else ["Some", d]])
+    return core.sx_sorted(out)
+
+
+def xcoq_opts(sp):
+    def opt(x, f):
+        return "None" if x is None else "(Some %s)" % f(x)
+
+    def dy(x):
+        m, den = float(x).as_integer_ratio()
+        return "(%s, %d%%N)" % (coq_Z(m), den.bit_length() - 1)
+    return "(mkOpts %s %s %s %s %s %s %s %s)" % (
+        core.coq_bool(sp["case"]), core.coq_bool(sp["strty"]), core.coq_bool(sp["numty"]),
+        opt(sp["sig"], lambda d: "%d%%N" % d), opt(sp["eps"], dy), coq_list(COQ_XTY[t] for t in sp["excl"]),
+        TUNITS[sp["trunc"]], coq_Z(sp["tz"] or 0))
+
+
+def xcoq_vlist(xs):
+    return coq_list(x_to_coq(x) for x in xs)
+
+
+def has_datetime(*vals):
+    return any(isinstance(x, datetime.datetime) for v in vals for x in all_atoms_of(v, []))
+
+
+def xmodel_case(args):
+    """worker: one correspondence case of the extended model"""
+    a, b, sp, zip_, thr, fam, name = args
+    kw = kwargs_of(sp)
+    r = run_dd(a, b, view="tree", verbose_level=2, zip_ordered_iterables=zip_, threshold_to_diff_deeper=thr, **kw)
+    if r[0] == "ok":
+        try:
+            obs = ["ok", xtree_obs(r[1])]
+        except TypeError:
+            obs = ["unrepresentable"]
+    else:
+        obs = ["raised", r[1]]
+    ut = udiff_table(a, b, sp["case"])
+    ot, tile_ok = ops_table(a, b)
+    ops = coq_list("(%s, %s, %s)" % (xcoq_vlist(xs), xcoq_vlist(ys),
+                                     coq_list("mkOp %s %d %d %d %d" % (D.TAGS[o[0]], o[1], o[2], o[3], o[4]) for o in op))
+                   for xs, ys, op in ot)
+    expr = "xrun_sx %s %s %s %s %s %s" % (D.coq_udiff_table(ut), ops, coq_cfg(zip_, thr, sp["private"]), xcoq_opts(sp),
+                                           x_to_coq(a), x_to_coq(b))
+    return expr, obs, tile_ok, len(ot)
+
+
+def xspecs(rng):
+    """the nine options of the extended model, singles and pairs"""
+    singles = [("case", mk(case=True)), ("strty", mk(strty=True)), ("numty", mk(numty=True)),
+               ("sig", mk(sig=rng.choice([0, 1, 2, 3, 4]))), ("eps", mk(eps=rng.choice([0.5, 1.0, 0.25, 0.01, 1e-3, 0.3]))),
+               ("excl", mk(excl=rng.choice([["int"], ["str"], ["float"], ["datetime"], ["list"], ["dict"], ["int", "datetime"]]))),
+               ("private", mk(private=True, base_private=False)),
+               ("trunc", mk(trunc=rng.choice(["second", "minute", "hour", "day"]))), ("tz", mk(tz=rng.choice([0, 120, -300, 330, 345])))]
+    out = list(singles)
+    singles2 = list(singles)
+    for i in range(len(singles)):
+        for j in range(i + 1, len(singles)):
+            out.append((singles[i][0] + "+" + singles2[j][0], combine(singles[i][1], singles2[j][1])))
+    return out
+
+
+# --------------------------------------------------------------------------
 # the direct oracle (no model involved)
 # --------------------------------------------------------------------------
 def oracle_case(args):
@@ -1167,7 +1367,7 @@ def gen_pairs(rng, sp, n, rich):
                 a = {"k": a}
         r = rng.random()
         log = []
-        if _NUMX and rng.random() < 0.3:
+        if _NUMX and not _XU and rng.random() < 0.3:
             # focus: a small structure of numbers of many types (Decimal, numpy scalars, extreme magnitudes), altered almost everywhere
             xs = [numx_atom(rng) if rng.random() < 0.7 else gen_atom(rng, True) for _ in range(rng.randint(1, 4))]
             a = rng.choice([lambda: {"p": xs[0], "q": xs[1:]}, lambda: list(xs), lambda: {"k": {"n": xs[0]}, "l": tuple(xs[1:])},
@@ -1399,6 +1599,44 @@ def run(ctx):
     report_oracle(ctx, ores, ojobs)
     for c in cases[:3]:
         ctx.sample(c[2])
+
+    # ---- the extended model (arbitrary floats, datetimes; + truncate_datetime, default_timezone) ----
+    global _XU
+    _XU = True
+    per_spec = 900 if thorough else 70
+    xjobs, ojobs = [], []
+    for name, sp in xspecs(rng):
+        for fam, a, b, log in gen_pairs(rng, sp, per_spec, True):
+            zip_ = rng.random() < 0.4
+            thr = 0 if rng.random() < 0.25 else 0.33
+            ojobs.append((a, b, sp, zip_, fam, name, log))
+            if not (in_xuniverse(a) and in_xuniverse(b)):
+                ctx.count("xcorr_skipped:outside_universe")
+                continue
+            if D.set_alias(a, b) and (not sp["numty"] or sp["excl"]):
+                ctx.count("xcorr_skipped:set_alias(K2 memo)")
+                continue
+            if sp["numty"] and has_datetime(a, b):
+                ctx.count("xcorr_skipped:numty_with_datetime(C11-NUMGROUP-DATETIME)")
+                continue
+            xjobs.append((a, b, sp, zip_, thr, fam, name))
+    _XU = False
+    with mp.get_context("fork").Pool(core.NCPU) as pool:
+        xres = pool.map(xmodel_case, xjobs, chunksize=16)
+        ores = pool.map(oracle_case, ojobs, chunksize=16)
+    cases = []
+    for (expr, obs, tile_ok, ntab), job in zip(xres, xjobs):
+        a, b, sp, zip_, thr, fam, name = job
+        cases.append((expr, obs, {"family": fam, "options": name, "spec": sp, "zip": zip_, "thr": thr, "t1": lit(a), "t2": lit(b)}))
+        ctx.count("xcorr:%s" % fam)
+        ctx.count("xcorr_result:%s" % ("raised:" + obs[1] if obs[0] == "raised" else ("empty" if not obs[1] else "entries")))
+        if has_datetime(a, b):
+            ctx.count("xcorr:with_datetime")
+        ctx.count("oracle_validity:opcode_tables", ntab)
+        if not tile_ok:
+            ctx.break_("correspondence", {"name": "opcode_validity", "case": lit(a) + " | " + lit(b)})
+    ctx.coq_cases("c11_xstruct", XHDR, cases, shard=120, label="structural(extended universe: floats, datetimes)")
+    report_oracle(ctx, ores, ojobs)
 
     # ---- direct oracle on the rich universe, all eleven options ----
     per_spec = 1800 if thorough else 100
